@@ -17,6 +17,11 @@ var TrustedTotal = map[string]string{
 	"(*sync.Pool).Get":             "returns a pooled object or the result of New (a module function literal, analysed on its own)",
 	"(*sync.Pool).Put":             "stores its argument, no preconditions",
 	"(*sync.Once).Do":              "runs its argument at most once; the argument is a module function literal, analysed as a reachable function of its own",
+	"bytes.TrimPrefix":             "returns a sub-slice of its argument",
+	"bytes.TrimSuffix":             "returns a sub-slice of its argument",
+	"bytes.HasPrefix":              "compares, reads only",
+	"encoding/hex.DecodedLen":      "len/2",
+	"encoding/hex.EncodedLen":      "len*2",
 	"errors.New":                   "allocates an error value",
 	"errors.Is":                    "walks the Unwrap chain comparing identities; the Is/Unwrap methods it may call belong to error values built by errors.New, fmt.Errorf and pkg/errors, which are total",
 	"fmt.Errorf":                   "formatting; String/Error methods of operands assumed total (A3)",
@@ -69,24 +74,32 @@ var TrustedTotal = map[string]string{
 type lenReq struct {
 	arg int
 	min int64
+	// relational form (rel true):  ka*len(arg) + kb*len(arg2) + min >= 0
+	rel    bool
+	arg2   int
+	ka, kb int64
 }
 
 var intrinsics = map[string][]lenReq{
-	"(encoding/binary.littleEndian).Uint16":    {{0, 2}},
-	"(encoding/binary.littleEndian).Uint32":    {{0, 4}},
-	"(encoding/binary.littleEndian).Uint64":    {{0, 8}},
-	"(encoding/binary.littleEndian).PutUint16": {{0, 2}},
-	"(encoding/binary.littleEndian).PutUint32": {{0, 4}},
-	"(encoding/binary.littleEndian).PutUint64": {{0, 8}},
-	"(encoding/binary.bigEndian).Uint16":       {{0, 2}},
-	"(encoding/binary.bigEndian).Uint32":       {{0, 4}},
-	"(encoding/binary.bigEndian).Uint64":       {{0, 8}},
-	"(encoding/binary.bigEndian).PutUint16":    {{0, 2}},
-	"(encoding/binary.bigEndian).PutUint32":    {{0, 4}},
-	"(encoding/binary.bigEndian).PutUint64":    {{0, 8}},
+	"(encoding/binary.littleEndian).Uint16":    {{arg: 0, min: 2}},
+	"(encoding/binary.littleEndian).Uint32":    {{arg: 0, min: 4}},
+	"(encoding/binary.littleEndian).Uint64":    {{arg: 0, min: 8}},
+	"(encoding/binary.littleEndian).PutUint16": {{arg: 0, min: 2}},
+	"(encoding/binary.littleEndian).PutUint32": {{arg: 0, min: 4}},
+	"(encoding/binary.littleEndian).PutUint64": {{arg: 0, min: 8}},
+	"(encoding/binary.bigEndian).Uint16":       {{arg: 0, min: 2}},
+	"(encoding/binary.bigEndian).Uint32":       {{arg: 0, min: 4}},
+	"(encoding/binary.bigEndian).Uint64":       {{arg: 0, min: 8}},
+	"(encoding/binary.bigEndian).PutUint16":    {{arg: 0, min: 2}},
+	"(encoding/binary.bigEndian).PutUint32":    {{arg: 0, min: 4}},
+	"(encoding/binary.bigEndian).PutUint64":    {{arg: 0, min: 8}},
 	// crypto/cipher.Block as produced by aes.NewCipher: block size 16
-	"(crypto/cipher.Block).Encrypt": {{0, 16}, {1, 16}},
-	"(crypto/cipher.Block).Decrypt": {{0, 16}, {1, 16}},
+	"(crypto/cipher.Block).Encrypt": {{arg: 0, min: 16}, {arg: 1, min: 16}},
+	"(crypto/cipher.Block).Decrypt": {{arg: 0, min: 16}, {arg: 1, min: 16}},
+	// hex.Decode(dst, src) writes len(src)/2 bytes and does not check dst:  2*len(dst) + 1 - len(src) >= 0
+	"encoding/hex.Decode": {{rel: true, arg: 0, ka: 2, arg2: 1, kb: -1, min: 1}},
+	// hex.Encode(dst, src) writes 2*len(src) bytes:  len(dst) - 2*len(src) >= 0
+	"encoding/hex.Encode": {{rel: true, arg: 0, ka: 1, arg2: 1, kb: -2, min: 0}},
 }
 
 func trustedReason(name string) (string, bool) {
@@ -170,6 +183,11 @@ func (e *Engine) externObligations(a *FuncAn, call *ssa.Call, add func(ssa.Instr
 				off = 1 // T.M(recv, args…)
 			}
 			for _, r := range reqs {
+				if r.rel {
+					g := Add(Scale(a.LenOf(c.Args[r.arg+off]), r.ka), a.LenOf(c.Args[r.arg2+off]), r.kb).plus(r.min)
+					goals = append(goals, Goal{g, itoa(r.ka) + "*len(arg" + string(rune('0'+r.arg)) + ") + " + itoa(r.kb) + "*len(arg" + string(rune('0'+r.arg2)) + ") + " + itoa(r.min) + " >= 0"})
+					continue
+				}
 				goals = append(goals, Goal{a.LenOf(c.Args[r.arg+off]).plus(-r.min), "len(arg" + string(rune('0'+r.arg)) + ") >= " + itoa(r.min)})
 			}
 			add(call, "intrinsic", name+" argument lengths", goals)
